@@ -201,6 +201,7 @@ def run(ctx):
     resolution_errors_not_overwritten(ctx, "R13-j")
     paths_compared_by_component(ctx, "R13-k")
     only_a_missing_default_file_is_forgiven(ctx, "R13-l")
+    relative_offset_is_consumed(ctx, "R13-m")
 
     D = r.rule("R13-d", "ParseSess::default_submod_path retries in the declaring file's own directory only for "
                         "ModError::FileNotFound with a relative owner, every other error is passed on unchanged; the module map "
@@ -648,3 +649,35 @@ def only_a_missing_default_file_is_forgiven(ctx, rid):
                     "a path returns Ok although default_submod_path failed and the error was %s" %
                     ("never examined" if not bad[0] else [v[1] for v in bad[0]]), ["%s:%d" % (f.file, f.line)])
     r.floor(rid, n, 1, "Ok-returning paths of find_external_module after a failed default lookup")
+
+
+def relative_offset_is_consumed(ctx, rid):
+    """R13-m: entering an inline module uses up the `relative` offset of the enclosing file"""
+    p, r = ctx.p, ctx.r
+    r.rule(rid, "ModResolver::push_inline_mod_directory: when the directory path is extended by the `relative` name of the current "
+                "ownership (`x/y.rs` ⇒ children live under `x/y/`), that name is *taken* out of the ownership "
+                "(`relative.take()`, or the ownership is overwritten) — the pushed component derives from `Option::take`, not from "
+                "a copy of the field.  A copy leaves the offset in force for the modules nested inside: `mod a { mod b { mod c; } }` "
+                "is then looked up under `…/a/y/b/y/c.rs`, and with one level of nesting a stray file there is formatted in place "
+                "of the real one")
+    f = p.named("push_inline_mod_directory", within="modules::ModResolver")
+    if f is None:
+        r.undecidable(rid, "ModResolver::push_inline_mod_directory not found")
+        return
+    n = 0
+    for c in f.calls():
+        if not c.name.endswith("PathBuf::push") or len(c.args) < 2 or c.args[1][0] == "k":
+            continue
+        d = f.derived_from(c.args[1][1][0])
+        from_rel = any(str(x[2]) == "relative" for x in d["fields"])
+        if not from_rel:
+            continue
+        n += 1
+        taken = any(x.name.endswith("Option::<T>::take") or x.name.endswith("mem::take") or x.name.endswith("mem::replace") for x in d["calls"])
+        r.instance(rid, "push_inline_mod_directory pushes the relative offset", "ok" if taken else "violation", c.loc(),
+                   "taken out of the ownership" if taken else "copied, the ownership keeps it")
+        if not taken:
+            r.violation(rid, "push_inline_mod_directory pushes the relative offset without consuming it",
+                        "the component pushed onto the directory path is a copy of `ownership.relative`; the field is not emptied, "
+                        "so nested inline modules apply the offset again", [c.loc()])
+    r.floor(rid, n, 1, "pushes of the relative offset in push_inline_mod_directory")
